@@ -38,7 +38,7 @@ SHAPES = shapes()
 
 
 def bounds(tier):
-    return dict(skeletons=[s.name for s in SHAPES], trials='<= 3 (quick) / 3-4 (thorough)', steps_per_trial='<= 3 (quick) / 4-5 (thorough)',
+    return dict(skeletons=[s.name for s in SHAPES], trials='<= 3 (quick) / 2-4 (thorough)', steps_per_trial='<= 3 (quick) / 3-5 (thorough)',
                 heuristic='symbolic admissible', margin='symbolic (0,1]', randomize_action_order=[False, True])
 
 
@@ -221,7 +221,7 @@ def jobs(tier):
             for rao in [False, True]:
                 if quick and i == 3 and (rao or hk == 'sym'):
                     continue
-                Ti, Li = (2, 3) if (quick and i >= 1) else ((3, 4) if i >= 1 else (T, L))      # (4 trials x 5 steps on the 3-4 state skeletons exceed 40000 paths)
+                Ti, Li = (2, 3) if ((quick and i >= 1) or i == 3) else ((3, 3) if i >= 1 else (T, L))      # (more trials / steps on the 3-4 state skeletons exceed 40000 paths per case)
                 yield ('full_run', dict(shape=i, hkind=hk, rao=rao, T=Ti, L=Li), dict(o, cost=10))
         if i == 1:
             yield ('full_run', dict(shape=i, hkind='sym', rao=False, T=2, L=3, warm=True), dict(o, cost=10))
